@@ -64,6 +64,10 @@ def histories(tier, seed):
     os.remove(os.path.join(vlib.SPEC, "_c15.cfg"))
     hs2 = [h for h in (vlib.tlc_value_to_json(l) for l in e.prints) if h]
     hs2 = [h for h in hs2 if any(s["op"] == "eval" for s in h)]
+    if len(hs2) > 40000:
+        # the 4-step histories over two modules number ~130 000; a seeded sample keeps the thorough tier within the hour
+        hs2.sort(key=lambda h: json.dumps(h, sort_keys=True))
+        hs2 = random.Random(seed + 5).sample(hs2, 40000)
     return hs, hs2, r, e
 
 
